@@ -143,6 +143,15 @@ def run(spec, rec):
             ok, got = rec.noraise("returns", lambda: fs.marginalize(list(over)), site="Spectrum.marginalize", tags=t)
             if ok:
                 judge("marginalize", got, ref, eids, "Spectrum.marginalize", t)
+            # the axes to sum over are a set: any order of naming them (list or tuple) gives the same spectrum
+            if len(over) > 1:
+                shuffled = [int(a) for a in rng.permutation(over)]
+                if shuffled == list(over):
+                    shuffled = shuffled[::-1]
+                t2 = dict(tags, over=shuffled, order="not-ascending")
+                ok, got_s = rec.noraise("returns", lambda: fs.marginalize(tuple(shuffled) if rng.random() < 0.5 else shuffled), site="Spectrum.marginalize", tags=t2)
+                if ok:
+                    judge("marginalize", got_s, ref, eids, "Spectrum.marginalize", t2)
             tokeep = [a + 1 for a in keep]
             rng.shuffle(tokeep)
             ok, got2 = rec.noraise("returns", lambda: fs.filter_pops(list(tokeep)), site="Spectrum.filter_pops", tags=t)
